@@ -14,6 +14,7 @@ definition extracted from its MIR:
      killed through the same pid file, before that file is removed;
   R6 the http-01 proof is written to the documented path and contains `{{ proof }}`;
   R7 git group: init on both pre types, add and commit on both post types.
+  R7 also: write_file's success-path traces show the file-pre/post-create/edit events the git group is hooked on.
 """
 import os
 import re
